@@ -37,4 +37,8 @@ def run(check):
     check.run_rule('C07.R8b', lambda c: rule_repr_robust(c, 'C07.R8'))
     from ..rules_visitor import rule_visit_nullable
     check.run_rule('C07.R9', lambda c: rule_visit_nullable(c, 'C07.R9'))
+    # the hook binds the documented object with safe_get(); taking __get__ from the object instead of its type calls a
+    # descriptor *class* nested in another class as if it were a descriptor instance (TypeError out of the hook)
+    from ..rules_wrappers import rule_descriptor_rebinding
+    check.run_rule('C07.R5c', lambda c: rule_descriptor_rebinding(c, 'C07.R5', only_safe_get=True))
     check.run_rule('C07.R5b', lambda c: rule_sphinx_unchanged_pair(c, 'C07.R5'))
